@@ -225,8 +225,9 @@ def hist_to_vector(cfg, hist, vid, fam, cont, n):
                 cmds.append(["drop"])
         elif k == "quiesce":
             cmds.append(["settle"])
-        elif k == "fromiter":
-            cmds.append(["fromiter", e["n"]])
+        elif k in ("fromiter", "extend"):
+            kind = 0 if e["hint"] == e["n"] else (1 if e["hint"] == 0 else 2)
+            cmds.append([k, e["n"], kind])
             skip_ins = e["n"]
         elif k == "insert" and skip_ins > 0:
             skip_ins -= 1          # a member handed to FromIterator: part of the `fromiter` command
